@@ -2,16 +2,17 @@
 # usage: tools/variant_matrix.sh <dir-with-patch-dirs> [jobs]   — applies each <dir>/<name>/patch.diff to a scratch copy of /repo's
 # working tree and runs every claimed check on it; prints the checks that are NOT silent (new violation or broken check).
 SRC="$1"; J="${2:-6}"
-cd /verif; ./setup.sh >/dev/null || exit 2
+ROOT="$(cd "$(dirname "$0")/.." && pwd)"; cd "$ROOT"; ./setup.sh >/dev/null || exit 2
+export ROOT
 PROPS=$(python3 -c "import json;print(' '.join(c['property_id'] for c in json.load(open('MANIFEST.json'))['checks']))")
 one() {
   d="$1"; name=$(basename "$d"); T=$(mktemp -d /tmp/vm-XXXXXX)
-  rsync -a --exclude=.git /repo/ $T/tree/; mkdir -p $T/verif; cp /verif/known_findings.json $T/verif/
+  rsync -a --exclude=.git /repo/ $T/tree/; mkdir -p $T/verif; cp $ROOT/known_findings.json $T/verif/
   if ! (cd $T/tree && git apply --whitespace=nowarn "$d/patch.diff" 2>/dev/null); then echo "$name: PATCH-DOES-NOT-APPLY"; rm -rf $T; return; fi
   if ! (cd $T/tree && GOFLAGS=-mod=mod GOPROXY=off GOSUMDB=off GOTOOLCHAIN=local go build ./... 2>/dev/null); then echo "$name: DOES-NOT-BUILD"; rm -rf $T; return; fi
   res=""
   for p in $PROPS; do
-    out=$(/verif/bin/mcpcheck -prop $p -tier keys -repo $T/tree -verif $T/verif 2>&1); code=$?
+    out=$($ROOT/bin/mcpcheck -prop $p -tier keys -repo $T/tree -verif $T/verif 2>&1); code=$?
     if [ $code -ne 0 ]; then
       res="$res\n  $p exit=$code $(echo "$out" | grep -E '^KEY|CHECK-BROKEN' | head -4 | tr '\n' ';')"
     fi
